@@ -1317,6 +1317,13 @@ pub(crate) fn mk_concatenation_spanned(tokens: Vec<Token<'static, Span>>, span: 
 pub(crate) fn mk_tokenized(expression: &'static str, token: Token<'static, Span>) -> Tokenized<'static, Span> {
     Tokenized { expression: Cow::Borrowed(expression), token }
 }
+// a branch token with a span: 0 alternation of two `?`, 2 repetition `<?:1,>` (children get empty spans)
+pub(crate) fn spanned_branch_token(bk: u8, span: Span) -> Token<'static, Span> {
+    match bk {
+        0 => Token::new(BranchKind::Alternation(Alternation(vec![leaf_token_spanned(1, (0, 0)), leaf_token_spanned(1, (0, 0))])), span),
+        _ => Token::new(BranchKind::Repetition(Repetition { token: Box::new(leaf_token_spanned(1, (0, 0))), lower: 1, upper: None }), span),
+    }
+}
 fn mk_when(k: u8) -> When {
     match k {
         0 => When::Never,
